@@ -10,7 +10,7 @@ import TFV.Lemmas.SqrtBound
 import TFV.Lemmas.DivInv
 import Mathlib.Analysis.SpecialFunctions.Pow.Real
 
-set_option exponentiation.threshold 4000
+set_option exponentiation.threshold 5000
 
 namespace F64
 
@@ -1312,5 +1312,743 @@ theorem hi_real {t : TwoFloat} (hv : t.Valid) :
   · have : (1 + 1 / 2 ^ 53) * |(t.hi.toInt : ℝ)| = (2 ^ 53 + 1) * |(t.hi.toInt : ℝ)| / 2 ^ 53 := by
       field_simp
     rw [this, le_div_iff₀ (by positivity)]; linarith
+
+/-! ## 6. the Newton step of `cbrt` in double-word arithmetic -/
+
+open C01
+
+/-- range facts about the scaled cube root `C` of `a` (`C³ = a.V·U²`, `U = 2^1074`) for `|a.hi| ∈ [2^-900, 2^900]` -/
+theorem C_range {a : TwoFloat} {C : ℝ} (hva : a.Valid)
+    (ha1 : 2 ^ 174 ≤ |a.hi.toInt|) (ha2 : |a.hi.toInt| ≤ 2 ^ 1974)
+    (hCa : C ^ 3 = (a.V : ℝ) * (2 ^ 1074) ^ 2) :
+    (99 / 100) * 2 ^ 174 ≤ |(a.V : ℝ)| ∧ |(a.V : ℝ)| ≤ (101 / 100) * 2 ^ 1974 ∧
+    |C| ^ 3 = |(a.V : ℝ)| * (2 ^ 1074) ^ 2 ∧ 2 ^ 773 ≤ |C| ∧ |C| ≤ 2 ^ 1375 := by
+  obtain ⟨h1, h2⟩ := hi_real hva
+  have c1 : (2 : ℝ) ^ 174 ≤ |(a.hi.toInt : ℝ)| := by exact_mod_cast ha1
+  have c2 : |(a.hi.toInt : ℝ)| ≤ (2 : ℝ) ^ 1974 := by exact_mod_cast ha2
+  have u1 : (1 : ℝ) / 2 ^ 53 ≤ 1 / 100 := by norm_num
+  have n0 := abs_nonneg (a.hi.toInt : ℝ)
+  have l1 : (99 / 100) * 2 ^ 174 ≤ |(a.V : ℝ)| := by nlinarith
+  have l2 : |(a.V : ℝ)| ≤ (101 / 100) * 2 ^ 1974 := by nlinarith
+  have l3 : |C| ^ 3 = |(a.V : ℝ)| * (2 ^ 1074) ^ 2 := by
+    rw [← abs_pow, hCa, abs_mul, abs_of_pos (by positivity : (0 : ℝ) < (2 ^ 1074) ^ 2)]
+  refine ⟨l1, l2, l3, ?_, ?_⟩
+  · by_contra hc
+    rw [not_le] at hc
+    have : |C| ^ 3 < (2 ^ 773) ^ 3 := pow_lt_pow_left₀ hc (abs_nonneg C) (by norm_num)
+    rw [l3] at this
+    have e1 : ((2 : ℝ) ^ 773) ^ 3 = (1 / 8) * 2 ^ 174 * (2 ^ 1074) ^ 2 := by norm_num
+    have e2 : (0 : ℝ) < (2 ^ 1074) ^ 2 := by positivity
+    nlinarith
+  · by_contra hc
+    rw [not_le] at hc
+    have : (2 ^ 1375) ^ 3 < |C| ^ 3 := pow_lt_pow_left₀ hc (by positivity) (by norm_num)
+    rw [l3] at this
+    have e1 : ((2 : ℝ) ^ 1375) ^ 3 = 8 * 2 ^ 1974 * (2 ^ 1074) ^ 2 := by norm_num
+    have e2 : (0 : ℝ) < (2 ^ 1074) ^ 2 := by positivity
+    nlinarith
+
+
+/-- magnitudes of value and high word of `x ≈ C` -/
+theorem x_encl {x : TwoFloat} {C E : ℝ} (hvx : x.Valid) (hE : E ≤ 1 / 2 ^ 50)
+    (hx : |(x.V : ℝ) - C| ≤ E * |C|) :
+    (999 / 1000) * |C| ≤ |(x.V : ℝ)| ∧ |(x.V : ℝ)| ≤ (1001 / 1000) * |C| ∧
+    (998 / 1000) * |C| ≤ |(x.hi.toInt : ℝ)| ∧ |(x.hi.toInt : ℝ)| ≤ (1002 / 1000) * |C| := by
+  obtain ⟨h1, h2⟩ := hi_real hvx
+  have t := abs_abs_sub_abs_le_abs_sub (x.V : ℝ) C
+  obtain ⟨t1, t2⟩ := abs_le.1 (le_trans t hx)
+  have hEc : E * |C| ≤ (1 / 2 ^ 50) * |C| := mul_le_mul_of_nonneg_right hE (abs_nonneg C)
+  have u1 : (1 : ℝ) / 2 ^ 53 ≤ 1 / 10 ^ 9 := by norm_num
+  have u2 : (1 : ℝ) / 2 ^ 50 ≤ 1 / 10 ^ 9 := by norm_num
+  have n0 := abs_nonneg (x.hi.toInt : ℝ)
+  have n1 := abs_nonneg C
+  have n2 : (1 / 2 ^ 53) * |(x.hi.toInt : ℝ)| ≤ (1 / 10 ^ 9) * |(x.hi.toInt : ℝ)| :=
+    mul_le_mul_of_nonneg_right u1 n0
+  have n3 : (1 / 2 ^ 50) * |C| ≤ (1 / 10 ^ 9) * |C| := mul_le_mul_of_nonneg_right u2 n1
+  refine ⟨by linarith, by linarith, by linarith, by linarith⟩
+
+
+/-- crude enclosure of the high word by the value -/
+theorem hi_encl {t : TwoFloat} (hv : t.Valid) :
+    (999 / 1000) * |(t.V : ℝ)| ≤ |(t.hi.toInt : ℝ)| ∧ |(t.hi.toInt : ℝ)| ≤ (1001 / 1000) * |(t.V : ℝ)| := by
+  obtain ⟨h1, h2⟩ := hi_real hv
+  have u1 : (1 : ℝ) / 2 ^ 53 ≤ 1 / 10 ^ 9 := by norm_num
+  have n0 := abs_nonneg (t.hi.toInt : ℝ)
+  have n2 : (1 / 2 ^ 53) * |(t.hi.toInt : ℝ)| ≤ (1 / 10 ^ 9) * |(t.hi.toInt : ℝ)| :=
+    mul_le_mul_of_nonneg_right u1 n0
+  constructor <;> linarith
+
+/-- a relative error bound `κ ≤ 2^-50` as an enclosure of magnitudes -/
+theorem rel_encl {r s κ : ℝ} (hκ : κ ≤ 1 / 2 ^ 50) (h : |r - s| ≤ κ * |s|) :
+    (999 / 1000) * |s| ≤ |r| ∧ |r| ≤ (1001 / 1000) * |s| := by
+  have t := abs_abs_sub_abs_le_abs_sub r s
+  obtain ⟨t1, t2⟩ := abs_le.1 (le_trans t h)
+  have hk : κ * |s| ≤ (1 / 2 ^ 50) * |s| := mul_le_mul_of_nonneg_right hκ (abs_nonneg s)
+  have u2 : (1 : ℝ) / 2 ^ 50 ≤ 1 / 10 ^ 9 := by norm_num
+  have n3 : (1 / 2 ^ 50) * |s| ≤ (1 / 10 ^ 9) * |s| := mul_le_mul_of_nonneg_right u2 (abs_nonneg s)
+  constructor <;> linarith
+
+theorem eta_le : (5 : ℝ) * (1 / 2 ^ 106) ≤ 1 / 2 ^ 50 := by norm_num
+
+/-- **stage 1 of the Newton step: the two products `p = x·x`, `q = p·x`** -/
+theorem step_products {x a : TwoFloat} {C E : ℝ} (hvx : x.Valid) (hwx : x.WF) (hva : a.Valid)
+    (ha1 : 2 ^ 174 ≤ |a.hi.toInt|) (ha2 : |a.hi.toInt| ≤ 2 ^ 1974)
+    (hCa : C ^ 3 = (a.V : ℝ) * (2 ^ 1074) ^ 2) (hE : E ≤ 1 / 2 ^ 50)
+    (hx : |(x.V : ℝ) - C| ≤ E * |C|) :
+    (mulTT x x).Valid ∧ (mulTT x x).WF ∧ (mulTT (mulTT x x) x).Valid ∧ (mulTT (mulTT x x) x).WF ∧
+    |((mulTT x x).V : ℝ) * 2 ^ 1074 - (x.V : ℝ) * (x.V : ℝ)| ≤ 5 * (1 / 2 ^ 106) * |(x.V : ℝ) * (x.V : ℝ)| ∧
+    |((mulTT (mulTT x x) x).V : ℝ) * 2 ^ 1074 - ((mulTT x x).V : ℝ) * (x.V : ℝ)|
+      ≤ 5 * (1 / 2 ^ 106) * |((mulTT x x).V : ℝ) * (x.V : ℝ)| := by
+  obtain ⟨a1, a2, hC3, c1, c2⟩ := C_range hva ha1 ha2 hCa
+  obtain ⟨x1, x2, x3, x4⟩ := x_encl hvx hE hx
+  have nC := abs_nonneg C
+  -- first product
+  have hxx : (2 : ℝ) ^ 1247 ≤ |(x.hi.toInt : ℝ)| * |(x.hi.toInt : ℝ)| ∧
+      |(x.hi.toInt : ℝ)| * |(x.hi.toInt : ℝ)| < 2 ^ 3169 := by
+    have l1 : (998 / 1000 * 2 ^ 773) * (998 / 1000 * 2 ^ 773) ≤ |(x.hi.toInt : ℝ)| * |(x.hi.toInt : ℝ)| :=
+      mul_le_mul (by linarith) (by linarith) (by positivity) (abs_nonneg _)
+    have l2 : |(x.hi.toInt : ℝ)| * |(x.hi.toInt : ℝ)| ≤ (1002 / 1000 * 2 ^ 1375) * (1002 / 1000 * 2 ^ 1375) :=
+      mul_le_mul (by linarith) (by linarith) (abs_nonneg _) (by positivity)
+    constructor
+    · refine le_trans ?_ l1; norm_num
+    · refine lt_of_le_of_lt l2 ?_; norm_num
+  have hx53 : (2 : Int) ^ 53 ≤ |x.hi.toInt| := by
+    have : (2 : ℝ) ^ 53 ≤ |(x.hi.toInt : ℝ)| := by
+      have : (2 : ℝ) ^ 53 ≤ 998 / 1000 * 2 ^ 773 := by norm_num
+      linarith
+    exact_mod_cast this
+  have hlo1 : (2 : Int) ^ 1247 ≤ |x.hi.toInt * x.hi.toInt| := by
+    have := hxx.1
+    rw [← abs_mul] at this
+    exact_mod_cast this
+  have hhi1 : |x.hi.toInt * x.hi.toInt| < (2 : Int) ^ 3169 := by
+    have := hxx.2
+    rw [← abs_mul] at this
+    exact_mod_cast this
+  obtain ⟨pv, pw, hP⟩ := mul_tt_real hvx hwx hvx hwx hx53 hx53 hlo1 hhi1
+  refine ⟨pv, pw, ?_⟩
+  -- second product
+  obtain ⟨p1, p2⟩ := rel_encl eta_le hP
+  obtain ⟨ph1, ph2⟩ := hi_encl pv
+  rw [abs_mul, abs_mul, abs_of_pos (by positivity : (0 : ℝ) < 2 ^ 1074)] at p1 p2
+  have nvx := abs_nonneg (x.V : ℝ)
+  have nvp := abs_nonneg ((mulTT x x).V : ℝ)
+  have nhp := abs_nonneg ((mulTT x x).hi.toInt : ℝ)
+  have nhx := abs_nonneg (x.hi.toInt : ℝ)
+  have naV := abs_nonneg (a.V : ℝ)
+  have hC3' : |C| * |C| * |C| = |(a.V : ℝ)| * (2 ^ 1074) ^ 2 := by rw [← hC3]; ring
+  have kk : (2 : ℝ) ^ 1247 ≤ |((mulTT x x).hi.toInt : ℝ)| * |(x.hi.toInt : ℝ)| ∧
+      |((mulTT x x).hi.toInt : ℝ)| * |(x.hi.toInt : ℝ)| < (2 : ℝ) ^ 3169 ∧
+      (2 : ℝ) ^ 53 ≤ |((mulTT x x).hi.toInt : ℝ)| := by
+    clear hP hx hCa hC3 hxx
+    generalize |C| = c at *
+    generalize |(x.V : ℝ)| = vx at *
+    generalize |((mulTT x x).V : ℝ)| = vp at *
+    generalize |((mulTT x x).hi.toInt : ℝ)| = hp at *
+    generalize |(x.hi.toInt : ℝ)| = hx' at *
+    generalize |(a.V : ℝ)| = va at *
+    have s1 : (999 / 1000 * c) * (999 / 1000 * c) ≤ vx * vx :=
+      mul_le_mul x1 x1 (by positivity) nvx
+    have s1' : vx * vx ≤ (1001 / 1000 * c) * (1001 / 1000 * c) :=
+      mul_le_mul x2 x2 nvx (by positivity)
+    have cc : (2 : ℝ) ^ 773 * 2 ^ 773 ≤ c * c := mul_le_mul c1 c1 (by positivity) nC
+    have s3 : (997 / 1000 * (c * c)) * c ≤ (vp * 2 ^ 1074) * c :=
+      mul_le_mul_of_nonneg_right (by nlinarith) nC
+    have s3' : (vp * 2 ^ 1074) * c ≤ (1004 / 1000 * (c * c)) * c :=
+      mul_le_mul_of_nonneg_right (by nlinarith) nC
+    have e1 : (997 / 1000 * (c * c)) * c = 997 / 1000 * (c * c * c) := by ring
+    have e2 : (1004 / 1000 * (c * c)) * c = 1004 / 1000 * (c * c * c) := by ring
+    rw [e1, hC3'] at s3
+    rw [e2, hC3'] at s3'
+    have s4 : (999 / 1000 * vp) * (998 / 1000 * c) ≤ hp * hx' :=
+      mul_le_mul ph1 x3 (by positivity) nhp
+    have s4' : hp * hx' ≤ (1001 / 1000 * vp) * (1002 / 1000 * c) :=
+      mul_le_mul ph2 x4 nhx (by positivity)
+    have k1 : (2 : ℝ) ^ 1247 ≤ hp * hx' := by
+      have e3 : ((2 : ℝ) ^ 1074) ^ 2 = 2 ^ 1074 * 2 ^ 1074 := by ring
+      have e4 : (2 : ℝ) ^ 1247 = (1 / 2) * 2 ^ 174 * 2 ^ 1074 := by norm_num
+      have e5 : (0 : ℝ) < 2 ^ 1074 := by positivity
+      rw [e3] at s3
+      have s5 : 997 / 1000 * (va * 2 ^ 1074) ≤ vp * c := by
+        have : (997 / 1000 * (va * 2 ^ 1074)) * 2 ^ 1074 ≤ (vp * c) * 2 ^ 1074 := by linarith
+        exact le_of_mul_le_mul_right this e5
+      have s6 : (99 / 100 * 2 ^ 174) * 2 ^ 1074 ≤ va * 2 ^ 1074 := mul_le_mul_of_nonneg_right a1 e5.le
+      rw [e4]
+      nlinarith
+    have k2 : hp * hx' < (2 : ℝ) ^ 3169 := by
+      have e3 : ((2 : ℝ) ^ 1074) ^ 2 = 2 ^ 1074 * 2 ^ 1074 := by ring
+      have e5 : (0 : ℝ) < 2 ^ 1074 := by positivity
+      rw [e3] at s3'
+      have s5 : vp * c ≤ 1004 / 1000 * (va * 2 ^ 1074) := by
+        have : (vp * c) * 2 ^ 1074 ≤ (1004 / 1000 * (va * 2 ^ 1074)) * 2 ^ 1074 := by linarith
+        exact le_of_mul_le_mul_right this e5
+      have s6 : va * 2 ^ 1074 ≤ (101 / 100 * 2 ^ 1974) * 2 ^ 1074 := mul_le_mul_of_nonneg_right a2 e5.le
+      have e4 : (2 : ℝ) ^ 3169 = 2 ^ 121 * (2 ^ 1974 * 2 ^ 1074) := by norm_num
+      have e6 : (0 : ℝ) < 2 ^ 1974 * 2 ^ 1074 := by positivity
+      rw [e4]
+      nlinarith
+    have k3 : (2 : ℝ) ^ 53 ≤ hp := by
+      have e4 : (2 : ℝ) ^ 773 * 2 ^ 773 = 2 ^ 472 * 2 ^ 1074 := by norm_num
+      have e5 : (0 : ℝ) < 2 ^ 1074 := by positivity
+      have s5 : 997 / 1000 * 2 ^ 472 ≤ vp := by
+        have : (997 / 1000 * 2 ^ 472) * 2 ^ 1074 ≤ vp * 2 ^ 1074 := by nlinarith
+        exact le_of_mul_le_mul_right this e5
+      have e6 : (2 : ℝ) ^ 53 ≤ 999 / 1000 * (997 / 1000 * 2 ^ 472) := by norm_num
+      linarith
+    exact ⟨k1, k2, k3⟩
+  obtain ⟨k1, k2, k3⟩ := kk
+  have hp53 : (2 : Int) ^ 53 ≤ |(mulTT x x).hi.toInt| := by exact_mod_cast k3
+  have hlo2 : (2 : Int) ^ 1247 ≤ |(mulTT x x).hi.toInt * x.hi.toInt| := by
+    rw [← abs_mul] at k1
+    exact_mod_cast k1
+  have hhi2 : |(mulTT x x).hi.toInt * x.hi.toInt| < (2 : Int) ^ 3169 := by
+    rw [← abs_mul] at k2
+    exact_mod_cast k2
+  obtain ⟨qv, qw, hQ⟩ := mul_tt_real pv pw hvx hwx hp53 hx53 hlo2 hhi2
+  exact ⟨qv, qw, hP, hQ⟩
+
+
+theorem three_facts : (f64lit 0x4008000000000000).is_finite = true ∧ (f64lit 0x4008000000000000).WF ∧
+    (f64lit 0x4008000000000000).toInt = 3 * (unit : Int) := by
+  refine ⟨by decide +kernel, by decide +kernel, ?_⟩
+  have : (f64lit 0x4008000000000000).toInt = ((3 * unit : Nat) : Int) := by decide +kernel
+  rw [this]; push_cast; ring
+
+/-- magnitudes of `p ≈ x²/U` and `q ≈ p·x/U` -/
+theorem encl_pq {C c va vx vp vq : ℝ} (hc : c = |C|) (hC3 : c ^ 3 = va * (2 ^ 1074) ^ 2)
+    (x1 : (999 / 1000) * c ≤ vx) (x2 : vx ≤ (1001 / 1000) * c)
+    (p1 : (999 / 1000) * (vx * vx) ≤ vp * 2 ^ 1074) (p2 : vp * 2 ^ 1074 ≤ (1001 / 1000) * (vx * vx))
+    (q1 : (999 / 1000) * (vp * vx) ≤ vq * 2 ^ 1074) (q2 : vq * 2 ^ 1074 ≤ (1001 / 1000) * (vp * vx))
+    (nvx : 0 ≤ vx) (nvp : 0 ≤ vp) :
+    (997 / 1000) * (c * c) ≤ vp * 2 ^ 1074 ∧ vp * 2 ^ 1074 ≤ (1004 / 1000) * (c * c) ∧
+    (99 / 100) * va ≤ vq ∧ vq ≤ (101 / 100) * va := by
+  have nC : 0 ≤ c := by rw [hc]; exact abs_nonneg C
+  have s1 : (999 / 1000 * c) * (999 / 1000 * c) ≤ vx * vx := mul_le_mul x1 x1 (by positivity) nvx
+  have s1' : vx * vx ≤ (1001 / 1000 * c) * (1001 / 1000 * c) := mul_le_mul x2 x2 nvx (by positivity)
+  have r1 : (997 / 1000) * (c * c) ≤ vp * 2 ^ 1074 := by nlinarith
+  have r2 : vp * 2 ^ 1074 ≤ (1004 / 1000) * (c * c) := by nlinarith
+  refine ⟨r1, r2, ?_, ?_⟩
+  · have s2 : ((997 / 1000) * (c * c)) * ((999 / 1000) * c) ≤ (vp * 2 ^ 1074) * vx :=
+      mul_le_mul r1 x1 (by positivity) (by positivity)
+    have e5 : (0 : ℝ) < 2 ^ 1074 := by positivity
+    have e1 : ((997 / 1000) * (c * c)) * ((999 / 1000) * c) = (997 / 1000 * (999 / 1000)) * c ^ 3 := by ring
+    rw [e1, hC3] at s2
+    have : ((99 / 100) * va) * ((2 ^ 1074) ^ 2) ≤ vq * ((2 ^ 1074) ^ 2) := by
+      have h1 := mul_le_mul_of_nonneg_right q1 e5.le
+      have n0 : 0 ≤ va := by
+        have : 0 ≤ c ^ 3 := by positivity
+        rw [hC3] at this
+        exact nonneg_of_mul_nonneg_left this (by positivity)
+      nlinarith
+    exact le_of_mul_le_mul_right this (by positivity)
+  · have s2 : (vp * 2 ^ 1074) * vx ≤ ((1004 / 1000) * (c * c)) * ((1001 / 1000) * c) :=
+      mul_le_mul r2 x2 nvx (by positivity)
+    have e5 : (0 : ℝ) < 2 ^ 1074 := by positivity
+    have e1 : ((1004 / 1000) * (c * c)) * ((1001 / 1000) * c) = (1004 / 1000 * (1001 / 1000)) * c ^ 3 := by ring
+    rw [e1, hC3] at s2
+    have : vq * ((2 ^ 1074) ^ 2) ≤ ((101 / 100) * va) * ((2 ^ 1074) ^ 2) := by
+      have h1 := mul_le_mul_of_nonneg_right q2 e5.le
+      have n0 : 0 ≤ va := by
+        have : 0 ≤ c ^ 3 := by positivity
+        rw [hC3] at this
+        exact nonneg_of_mul_nonneg_left this (by positivity)
+      nlinarith
+    exact le_of_mul_le_mul_right this (by positivity)
+
+
+/-- **stage 2 of the Newton step: numerator `n = q − a` and denominator `m = 3·p`** -/
+theorem step_num_den {a p q : TwoFloat} {C : ℝ} (hva : a.Valid) (hwa : a.WF)
+    (pv : p.Valid) (pw : p.WF) (qv : q.Valid) (qw : q.WF)
+    (ha2 : |a.hi.toInt| ≤ 2 ^ 1974) (c1 : 2 ^ 773 ≤ |C|) (c2 : |C| ≤ 2 ^ 1375)
+    (ep1 : (997 / 1000) * (|C| * |C|) ≤ |(p.V : ℝ)| * 2 ^ 1074)
+    (ep2 : |(p.V : ℝ)| * 2 ^ 1074 ≤ (1004 / 1000) * (|C| * |C|))
+    (eq2 : |(q.V : ℝ)| ≤ (101 / 100) * |(a.V : ℝ)|) (a2 : |(a.V : ℝ)| ≤ (101 / 100) * 2 ^ 1974) :
+    (subTT q a).Valid ∧ (subTT q a).WF ∧
+    (mulFT (f64lit 0x4008000000000000) p).Valid ∧ (mulFT (f64lit 0x4008000000000000) p).WF ∧
+    |((subTT q a).V : ℝ) - ((q.V : ℝ) - (a.V : ℝ))| ≤ (301 / 100) * (1 / 2 ^ 106) * |(q.V : ℝ) - (a.V : ℝ)| ∧
+    |((mulFT (f64lit 0x4008000000000000) p).V : ℝ) * 2 ^ 1074 - 3 * 2 ^ 1074 * (p.V : ℝ)|
+      ≤ 2 * (1 / 2 ^ 106) * |3 * 2 ^ 1074 * (p.V : ℝ)| := by
+  obtain ⟨qh1, qh2⟩ := hi_encl qv
+  obtain ⟨ph1, ph2⟩ := hi_encl pv
+  obtain ⟨f1, f2, f3⟩ := three_facts
+  have bq : |q.hi.toInt| < (2 : Int) ^ 2094 := by
+    have : |(q.hi.toInt : ℝ)| < (2 : ℝ) ^ 2094 := by
+      have e : (2 : ℝ) ^ 2094 = 2 ^ 120 * 2 ^ 1974 := by norm_num
+      have e6 : (0 : ℝ) < 2 ^ 1974 := by positivity
+      rw [e]; nlinarith
+    exact_mod_cast this
+  have ba : |a.hi.toInt| < (2 : Int) ^ 2094 :=
+    lt_of_le_of_lt ha2 (pow_lt_pow_right₀ (by norm_num) (by norm_num))
+  obtain ⟨nv, nw, hN⟩ := sub_tt_real qv qw hva hwa bq ba
+  have cc1 : (2 : ℝ) ^ 773 * 2 ^ 773 ≤ |C| * |C| := mul_le_mul c1 c1 (by positivity) (abs_nonneg C)
+  have cc2 : |C| * |C| ≤ (2 : ℝ) ^ 1375 * 2 ^ 1375 := mul_le_mul c2 c2 (abs_nonneg C) (by positivity)
+  have hr : (2 : Int) ^ 1188 ≤ |p.hi.toInt * (f64lit 0x4008000000000000).toInt| ∧
+      |p.hi.toInt * (f64lit 0x4008000000000000).toInt| < (2 : Int) ^ 3169 := by
+    rw [f3, abs_mul, abs_of_pos (by have := unit_pos_int; omega : (0 : Int) < 3 * (unit : Int))]
+    have e0 : (((3 * (unit : Int) : Int)) : ℝ) = 3 * 2 ^ 1074 := by
+      push_cast; rw [unit_real]
+    have n0 := abs_nonneg (p.hi.toInt : ℝ)
+    have n1 := abs_nonneg (p.V : ℝ)
+    constructor
+    · have : (2 : ℝ) ^ 1188 ≤ |(p.hi.toInt : ℝ)| * (3 * 2 ^ 1074) := by
+        have e : (2 : ℝ) ^ 773 * 2 ^ 773 = 2 ^ 358 * 2 ^ 1188 := by norm_num
+        have e6 : (0 : ℝ) < 2 ^ 1188 := by positivity
+        nlinarith
+      rw [← e0] at this
+      exact_mod_cast this
+    · have : |(p.hi.toInt : ℝ)| * (3 * 2 ^ 1074) < (2 : ℝ) ^ 3169 := by
+        have e : (2 : ℝ) ^ 3169 = 2 ^ 419 * (2 ^ 1375 * 2 ^ 1375) := by norm_num
+        have e6 : (0 : ℝ) < 2 ^ 1375 * 2 ^ 1375 := by positivity
+        rw [e]; nlinarith
+      rw [← e0] at this
+      exact_mod_cast this
+  obtain ⟨mv, mw, hM⟩ := mul_ft_real pv pw f1 f2 hr
+  refine ⟨nv, nw, mv, mw, hN, ?_⟩
+  have e0 : (((f64lit 0x4008000000000000).toInt : Int) : ℝ) = 3 * 2 ^ 1074 := by
+    rw [f3]; push_cast; rw [unit_real]
+  rw [e0] at hM
+  exact hM
+
+
+/-- a quotient digit of a zero dividend -/
+theorem zero_digit {x y : F64} (hx : x.is_finite = true) (hx0 : x.toInt = 0) (hy : y.is_finite = true)
+    (hy0 : y.toInt ≠ 0) : IsVal (F64.div x y) 0 := by
+  have h := div_spec hx hy hy0 (by
+    rw [hx0, zero_mul]
+    exact le_trans (roundQ_le_of_le (x := 0) (Int.natAbs_pos.2 hy0) rep_zero (by simp)) (Nat.zero_le _))
+  rw [hx0, zero_mul, rdI_zero_left] at h
+  exact h
+
+/-- one step of the long division on a zero remainder -/
+theorem zero_step {r m : TwoFloat} (rv : r.Valid) (rw' : r.WF) (mv : m.Valid) (mw : m.WF) (h0 : r.V = 0)
+    (hm0 : m.hi.toInt ≠ 0) :
+    IsVal (F64.div r.hi m.hi) 0 ∧ (divStep r m).Valid ∧ (divStep r m).WF ∧ (divStep r m).V = 0 := by
+  have hr0 : r.hi.toInt = 0 := by rw [rv.hi_toInt, h0, rnI_zero]
+  have hd := zero_digit rv.1 hr0 mv.1 hm0
+  have hp := mul_tf_bound mv mw hd.1 (div_WF _ _) (Or.inl (by rw [hd.2, mul_zero]))
+  have hpV : (arithmetic.impl_Mul_rf64_for_rTwoFloat.mul m (F64.div r.hi m.hi)).V = 0 := by
+    have h := hp.2
+    rw [hd.2, mul_zero, abs_zero, sub_zero] at h
+    have h1 := abs_nonneg ((arithmetic.impl_Mul_rf64_for_rTwoFloat.mul m (F64.div r.hi m.hi)).V * (unit : Int))
+    have h2 : |(arithmetic.impl_Mul_rf64_for_rTwoFloat.mul m (F64.div r.hi m.hi)).V * (unit : Int)| = 0 := by omega
+    rcases mul_eq_zero.1 (abs_eq_zero.1 h2) with h | h
+    · exact h
+    · have := unit_pos_int; omega
+  have hph : (arithmetic.impl_Mul_rf64_for_rTwoFloat.mul m (F64.div r.hi m.hi)).hi.toInt = 0 := by
+    rw [hp.1.hi_toInt, hpV, rnI_zero]
+  have hs := sub_tt_bound rv rw' hp.1 (mul_tf_WF _ _) (by rw [hr0]; simp) (by rw [hph]; simp)
+  refine ⟨hd, hs.1, divStep_WF _ _, ?_⟩
+  have h := hs.2
+  rw [h0, hpV, sub_zero, abs_zero, mul_zero, sub_zero] at h
+  have h1 := abs_nonneg (arithmetic.impl_Sub_rTwoFloat_for_rTwoFloat.sub r
+    (arithmetic.impl_Mul_rf64_for_rTwoFloat.mul m (F64.div r.hi m.hi))).V
+  have h2 : |(arithmetic.impl_Sub_rTwoFloat_for_rTwoFloat.sub r
+    (arithmetic.impl_Mul_rf64_for_rTwoFloat.mul m (F64.div r.hi m.hi))).V| = 0 := by omega
+  exact abs_eq_zero.1 h2
+
+/-- `0 / m = 0` in double-word arithmetic -/
+theorem div_zero_num {n m : TwoFloat} (nv : n.Valid) (nw : n.WF) (mv : m.Valid) (mw : m.WF)
+    (h0 : n.V = 0) (hm0 : m.hi.toInt ≠ 0) :
+    (divTT n m).Valid ∧ (divTT n m).WF ∧ (divTT n m).V = 0 := by
+  obtain ⟨d1, r1v, r1w, r10⟩ := zero_step nv nw mv mw h0 hm0
+  obtain ⟨d2, r2v, r2w, r20⟩ := zero_step r1v r1w mv mw r10 hm0
+  have hr2 : (divStep (divStep n m) m).hi.toInt = 0 := by rw [r2v.hi_toInt, r20, rnI_zero]
+  have d3 := zero_digit r2v.1 hr2 mv.1 hm0
+  show (arithmetic.impl_Div_rTwoFloat_for_rTwoFloat.div n m).Valid ∧
+    (arithmetic.impl_Div_rTwoFloat_for_rTwoFloat.div n m).WF ∧
+    (arithmetic.impl_Div_rTwoFloat_for_rTwoFloat.div n m).V = 0
+  rw [div_tt_eq]
+  have h := renorm3_drop d1.1 d2.1 d3.1 (div_WF _ _) (div_WF _ _)
+    (by rw [d1.2, d2.2]; simp) (by rw [d1.2, d3.2]; simp)
+    (by rw [d1.2]; simp)
+  rw [d1.2, d2.2] at h
+  simp only [add_zero, rnI_zero, sub_zero] at h
+  exact ⟨h.valid (renorm3_WF _ _ _) (by simp), renorm3_WF _ _ _, by rw [h.V_eq]; simp⟩
+
+
+/-- the side condition on a Newton numerator `n` (with denominator `m`): exactly zero, or large enough for the
+error analysis of the long division (`|n.hi| ≥ 2^-964` and `|n.hi / m.hi| ≥ 2^-964`) -/
+def NumOK (n m : TwoFloat) : Prop :=
+  n.V = 0 ∨ (2 ^ 110 ≤ |n.hi.toInt| ∧ 2 ^ 110 * |m.hi.toInt| ≤ |n.hi.toInt * (unit : Int)|)
+
+/-- **stage 3 of the Newton step: the quotient `k = n / m`** -/
+theorem step_div {a n m : TwoFloat} {C : ℝ} (nv : n.Valid) (nw : n.WF) (mv : m.Valid) (mw : m.WF)
+    (c1 : 2 ^ 773 ≤ |C|) (c2 : |C| ≤ 2 ^ 1375)
+    (hC3 : |C| ^ 3 = |(a.V : ℝ)| * (2 ^ 1074) ^ 2) (a2 : |(a.V : ℝ)| ≤ (101 / 100) * 2 ^ 1974)
+    (en : |(n.V : ℝ)| ≤ (22 / 10) * |(a.V : ℝ)|)
+    (em1 : (29 / 10) * (|C| * |C|) ≤ |(m.V : ℝ)| * 2 ^ 1074)
+    (em2 : |(m.V : ℝ)| * 2 ^ 1074 ≤ (31 / 10) * (|C| * |C|))
+    (H : NumOK n m) :
+    (divTT n m).Valid ∧ (divTT n m).WF ∧
+    |(n.V : ℝ) * 2 ^ 1074 - ((divTT n m).V : ℝ) * (m.V : ℝ)| ≤ 16 * (1 / 2 ^ 106) * |(n.V : ℝ) * 2 ^ 1074| := by
+  obtain ⟨nh1, nh2⟩ := hi_encl nv
+  obtain ⟨mh1, mh2⟩ := hi_encl mv
+  have nC := abs_nonneg C
+  have cc1 : (2 : ℝ) ^ 773 * 2 ^ 773 ≤ |C| * |C| := mul_le_mul c1 c1 (by positivity) nC
+  have cc2 : |C| * |C| ≤ (2 : ℝ) ^ 1375 * 2 ^ 1375 := mul_le_mul c2 c2 nC (by positivity)
+  have e5 : (0 : ℝ) < 2 ^ 1074 := by positivity
+  have n0 := abs_nonneg (n.hi.toInt : ℝ)
+  have n1 := abs_nonneg (m.hi.toInt : ℝ)
+  have n2 := abs_nonneg (a.V : ℝ)
+  have n3 := abs_nonneg (m.V : ℝ)
+  have n4 := abs_nonneg (n.V : ℝ)
+  have hmpos : (0 : ℝ) < |(m.hi.toInt : ℝ)| := by
+    have : (0 : ℝ) < (2 : ℝ) ^ 773 * 2 ^ 773 := by positivity
+    by_contra hc
+    have h0 : |(m.hi.toInt : ℝ)| = 0 := le_antisymm (not_lt.1 hc) n1
+    rw [h0] at mh1
+    have : |(m.V : ℝ)| ≤ 0 := by linarith
+    nlinarith
+  have hm0 : m.hi.toInt ≠ 0 := by
+    intro h; rw [h] at hmpos; simp at hmpos
+  rcases H with h0 | ⟨hA, hB⟩
+  · obtain ⟨kv, kw, k0⟩ := div_zero_num nv nw mv mw h0 hm0
+    refine ⟨kv, kw, ?_⟩
+    rw [h0, k0]; simp
+  · have A_hi : |n.hi.toInt| ≤ (2 : Int) ^ 2090 := by
+      have : |(n.hi.toInt : ℝ)| ≤ (2 : ℝ) ^ 2090 := by
+        have e : (2 : ℝ) ^ 2090 = 2 ^ 116 * 2 ^ 1974 := by norm_num
+        have e6 : (0 : ℝ) < 2 ^ 1974 := by positivity
+        rw [e]; nlinarith
+      exact_mod_cast this
+    have B_hi : |m.hi.toInt| ≤ (2 : Int) ^ 2090 := by
+      have : |(m.hi.toInt : ℝ)| ≤ (2 : ℝ) ^ 2090 := by
+        have e : (2 : ℝ) ^ 2090 * 2 ^ 1074 = 2 ^ 414 * (2 ^ 1375 * 2 ^ 1375) := by norm_num
+        have e6 : (0 : ℝ) < 2 ^ 1375 * 2 ^ 1375 := by positivity
+        have : |(m.hi.toInt : ℝ)| * 2 ^ 1074 ≤ (2 : ℝ) ^ 2090 * 2 ^ 1074 := by rw [e]; nlinarith
+        exact le_of_mul_le_mul_right this e5
+      exact_mod_cast this
+    have Q_hi : |n.hi.toInt * (unit : Int)| ≤ (2 : Int) ^ 2090 * |m.hi.toInt| := by
+      have : |(n.hi.toInt : ℝ)| * 2 ^ 1074 ≤ (2 : ℝ) ^ 2090 * |(m.hi.toInt : ℝ)| := by
+        have hC3' : |C| * |C| * |C| = |(a.V : ℝ)| * (2 ^ 1074 * 2 ^ 1074) := by
+          have : |C| * |C| * |C| = |C| ^ 3 := by ring
+          rw [this, hC3]; ring
+        have h1 : |(n.hi.toInt : ℝ)| * 2 ^ 1074 * 2 ^ 1074 ≤ (2203 / 1000) * (|C| * |C| * |C|) := by
+          rw [hC3']; nlinarith
+        have h2 : |C| * |C| * |C| ≤ (|C| * |C|) * 2 ^ 1375 := mul_le_mul_of_nonneg_left c2 (by positivity)
+        have h3 : (2897 / 1000) * (|C| * |C|) ≤ |(m.hi.toInt : ℝ)| * 2 ^ 1074 := by nlinarith
+        have h4 : (|(n.hi.toInt : ℝ)| * 2 ^ 1074) * 2 ^ 1074 ≤ ((2 : ℝ) ^ 2090 * |(m.hi.toInt : ℝ)|) * 2 ^ 1074 := by
+          have e : (2 : ℝ) ^ 2090 = 2 ^ 715 * 2 ^ 1375 := by norm_num
+          have e6 : (0 : ℝ) ≤ (|C| * |C|) * 2 ^ 1375 := by positivity
+          have h5 : (2203 / 1000) * ((|C| * |C|) * 2 ^ 1375) ≤ 2 ^ 715 * 2 ^ 1375 * ((2897 / 1000) * (|C| * |C|)) := by
+            have e7 : (2203 / 1000 : ℝ) ≤ 2 ^ 715 * (2897 / 1000) := by norm_num
+            nlinarith
+          rw [e]; nlinarith
+        exact le_of_mul_le_mul_right h4 e5
+      rw [abs_mul, abs_of_pos unit_pos_int]
+      have e0 : (((unit : Nat) : Int) : ℝ) = 2 ^ 1074 := by
+        rw [Int.cast_natCast, unit_real]
+      rw [← e0] at this
+      exact_mod_cast this
+    have hU1 : (1 : Int) ≤ (unit : Int) := unit_pos_int
+    have R : DivRange n.hi.toInt m.hi.toInt :=
+      ⟨le_trans (pow_le_pow_right₀ (by norm_num) (by norm_num)) hA, A_hi, B_hi,
+        le_trans (mul_le_mul_of_nonneg_right (pow_le_pow_right₀ (by norm_num) (by norm_num)) (abs_nonneg _)) hB,
+        Q_hi⟩
+    exact div_tt_real nv nw mv R hB hA
+
+
+/-- the Newton step `x − (x²·x − a)/(3·x²)` of `TwoFloat::cbrt`, as computed by the crate -/
+def cbrtStep (x a : TwoFloat) : TwoFloat :=
+  subTT x (divTT (subTT (mulTT (mulTT x x) x) a) (mulFT (f64lit 0x4008000000000000) (mulTT x x)))
+
+/-- the quotient of the Newton step is at most `0.8·|C|` in magnitude -/
+theorem k_bound {a n m k : TwoFloat} {C : ℝ} (kv : k.Valid)
+    (c1 : 2 ^ 773 ≤ |C|) (c2 : |C| ≤ 2 ^ 1375)
+    (hC3 : |C| ^ 3 = |(a.V : ℝ)| * (2 ^ 1074) ^ 2)
+    (en : |(n.V : ℝ)| ≤ (22 / 10) * |(a.V : ℝ)|)
+    (em1 : (29 / 10) * (|C| * |C|) ≤ |(m.V : ℝ)| * 2 ^ 1074)
+    (hK : |(n.V : ℝ) * 2 ^ 1074 - (k.V : ℝ) * (m.V : ℝ)| ≤ 16 * (1 / 2 ^ 106) * |(n.V : ℝ) * 2 ^ 1074|) :
+    |k.hi.toInt| < (2 : Int) ^ 2094 := by
+  obtain ⟨-, kh2⟩ := hi_encl kv
+  have e5 : (0 : ℝ) < 2 ^ 1074 := by positivity
+  have nC := abs_nonneg C
+  have hkm : |(k.V : ℝ)| * |(m.V : ℝ)| ≤ (1001 / 1000) * (|(n.V : ℝ)| * 2 ^ 1074) := by
+    have t1 := CbrtReal.abs_le_of_sub (a := (k.V : ℝ) * (m.V : ℝ)) (b := (n.V : ℝ) * 2 ^ 1074)
+      (r := 16 * (1 / 2 ^ 106) * |(n.V : ℝ) * 2 ^ 1074|) (by rw [abs_sub_comm]; exact hK)
+    rw [abs_mul, abs_mul, abs_of_pos e5] at t1
+    rw [abs_mul, abs_of_pos e5] at hK
+    have n0 : 0 ≤ |(n.V : ℝ)| * 2 ^ 1074 := by positivity
+    have : (16 : ℝ) * (1 / 2 ^ 106) ≤ 1 / 1000 := by norm_num
+    nlinarith
+  have hC3' : |C| * |C| * |C| = |(a.V : ℝ)| * (2 ^ 1074 * 2 ^ 1074) := by
+    have : |C| * |C| * |C| = |C| ^ 3 := by ring
+    rw [this, hC3]; ring
+  have cc0 : (0 : ℝ) < |C| * |C| := by
+    have : (0 : ℝ) < 2 ^ 773 := by positivity
+    have : 0 < |C| := by linarith
+    positivity
+  have hk : |(k.V : ℝ)| ≤ (8 / 10) * |C| := by
+    have h1 : (|(k.V : ℝ)| * |(m.V : ℝ)|) * 2 ^ 1074 ≤ (2203 / 1000) * (|C| * |C| * |C|) := by
+      rw [hC3']
+      have := mul_le_mul_of_nonneg_right hkm e5.le
+      have n0 := abs_nonneg (a.V : ℝ)
+      nlinarith
+    have h2 : |(k.V : ℝ)| * ((29 / 10) * (|C| * |C|)) ≤ |(k.V : ℝ)| * (|(m.V : ℝ)| * 2 ^ 1074) :=
+      mul_le_mul_of_nonneg_left em1 (abs_nonneg _)
+    have h3 : (|(k.V : ℝ)| * (29 / 10)) * (|C| * |C|) ≤ ((2203 / 1000) * |C|) * (|C| * |C|) := by nlinarith
+    have := le_of_mul_le_mul_right h3 cc0
+    linarith
+  have : |(k.hi.toInt : ℝ)| < (2 : ℝ) ^ 2094 := by
+    have e : (2 : ℝ) ^ 2094 = 2 ^ 719 * 2 ^ 1375 := by norm_num
+    have e6 : (0 : ℝ) < 2 ^ 1375 := by positivity
+    rw [e]; nlinarith
+  exact_mod_cast this
+
+theorem eta3_le : (301 / 100 : ℝ) * (1 / 2 ^ 106) ≤ 1 / 2 ^ 50 := by norm_num
+theorem eta2_le : (2 : ℝ) * (1 / 2 ^ 106) ≤ 1 / 2 ^ 50 := by norm_num
+
+/-- **one Newton step of `cbrt` in double-word arithmetic**: from relative error `E ≤ 2^-50` to
+`1.001·E² + 6.5·2^-106`, for `|a.hi| ∈ [2^-900, 2^900]`, under the side condition `NumOK` on the numerator. -/
+theorem cbrt_step {x a : TwoFloat} {C E : ℝ} (hvx : x.Valid) (hwx : x.WF) (hva : a.Valid) (hwa : a.WF)
+    (ha1 : 2 ^ 174 ≤ |a.hi.toInt|) (ha2 : |a.hi.toInt| ≤ 2 ^ 1974)
+    (hCa : C ^ 3 = (a.V : ℝ) * (2 ^ 1074) ^ 2) (hE0 : 0 ≤ E) (hE : E ≤ 1 / 2 ^ 50)
+    (hx : |(x.V : ℝ) - C| ≤ E * |C|)
+    (H : NumOK (subTT (mulTT (mulTT x x) x) a) (mulFT (f64lit 0x4008000000000000) (mulTT x x))) :
+    (cbrtStep x a).Valid ∧ (cbrtStep x a).WF ∧
+    |((cbrtStep x a).V : ℝ) - C| ≤ ((1001 / 1000) * E ^ 2 + (13 / 2) * (1 / 2 ^ 106)) * |C| := by
+  obtain ⟨a1, a2, hC3, c1, c2⟩ := C_range hva ha1 ha2 hCa
+  obtain ⟨x1, x2, x3, x4⟩ := x_encl hvx hE hx
+  obtain ⟨pv, pw, qv, qw, hP, hQ⟩ := step_products hvx hwx hva ha1 ha2 hCa hE hx
+  have nC := abs_nonneg C
+  have e5 : (0 : ℝ) < 2 ^ 1074 := by positivity
+  have hC0 : C ≠ 0 := by
+    intro h; rw [h, abs_zero] at c1
+    have : (0 : ℝ) < 2 ^ 773 := by positivity
+    linarith
+  obtain ⟨p1, p2⟩ := rel_encl eta_le hP
+  obtain ⟨q1, q2⟩ := rel_encl eta_le hQ
+  rw [abs_mul, abs_mul, abs_of_pos e5] at p1 p2 q1 q2
+  obtain ⟨ep1, ep2, eq1, eq2⟩ := encl_pq (C := C) rfl hC3 x1 x2 p1 p2 q1 q2 (abs_nonneg _) (abs_nonneg _)
+  obtain ⟨nv, nw, mv, mw, hN, hM⟩ := step_num_den hva hwa pv pw qv qw ha2 c1 c2 ep1 ep2 eq2 a2
+  -- enclosures of numerator and denominator
+  have en : |((subTT (mulTT (mulTT x x) x) a).V : ℝ)| ≤ (22 / 10) * |(a.V : ℝ)| := by
+    obtain ⟨-, n2⟩ := rel_encl eta3_le hN
+    have := abs_sub ((mulTT (mulTT x x) x).V : ℝ) (a.V : ℝ)
+    have n0 := abs_nonneg (a.V : ℝ)
+    linarith
+  obtain ⟨m1, m2⟩ := rel_encl eta2_le hM
+  rw [abs_mul, abs_mul, abs_mul, abs_of_pos e5, abs_of_pos (by norm_num : (0 : ℝ) < 3)] at m1 m2
+  have em1 : (29 / 10) * (|C| * |C|) ≤ |((mulFT (f64lit 0x4008000000000000) (mulTT x x)).V : ℝ)| * 2 ^ 1074 := by
+    have : (0 : ℝ) ≤ |C| * |C| := by positivity
+    linarith
+  have em2 : |((mulFT (f64lit 0x4008000000000000) (mulTT x x)).V : ℝ)| * 2 ^ 1074 ≤ (31 / 10) * (|C| * |C|) := by
+    have : (0 : ℝ) ≤ |C| * |C| := by positivity
+    linarith
+  obtain ⟨kv, kw, hK⟩ := step_div nv nw mv mw c1 c2 hC3 a2 en em1 em2 H
+  -- the final subtraction
+  have bx : |x.hi.toInt| < (2 : Int) ^ 2094 := by
+    have : |(x.hi.toInt : ℝ)| < (2 : ℝ) ^ 2094 := by
+      have e : (2 : ℝ) ^ 2094 = 2 ^ 719 * 2 ^ 1375 := by norm_num
+      have e6 : (0 : ℝ) < 2 ^ 1375 := by positivity
+      rw [e]; nlinarith
+    exact_mod_cast this
+  have bk : |(divTT (subTT (mulTT (mulTT x x) x) a) (mulFT (f64lit 0x4008000000000000) (mulTT x x))).hi.toInt|
+      < (2 : Int) ^ 2094 := by
+    exact k_bound kv c1 c2 hC3 en em1 hK
+  obtain ⟨rv, rw', hX'⟩ := sub_tt_real hvx hwx kv kw bx bk
+  refine ⟨rv, rw', ?_⟩
+  exact CbrtReal.newton_scaled (η := 1 / 2 ^ 106) (τ := 0) (U := 2 ^ 1074) (by positivity) (by norm_num)
+    (le_refl _) (by positivity) hE0 hE e5 hC0 hCa hx hP hQ hN hM (by rw [zero_mul, add_zero]; exact hK) hX'
+
+
+theorem maxFin_lt : maxFin < 2 ^ 2098 := by
+  rw [maxFin_eq]
+  calc (2 ^ 53 - 1) * 2 ^ 2045 < 2 ^ 53 * 2 ^ 2045 :=
+        Nat.mul_lt_mul_of_pos_right (by norm_num) (Nat.two_pow_pos _)
+    _ = 2 ^ 2098 := by rw [← Nat.pow_add]
+
+/-- real-number core of the initial approximation: `R` within half an ulp `h ≤ 2^-53 R` of the cube root of `m`,
+`|C|³` within `2^-53` of `m` -/
+theorem init_real {R h m c : ℝ} (hR : 0 < R) (hh0 : 0 < h) (hh : 2 ^ 53 * h ≤ R) (hc0 : 0 ≤ c)
+    (h1 : (R - h) ^ 3 ≤ m) (h2 : m ≤ (R + h) ^ 3)
+    (c1 : (1 - 1 / 2 ^ 53) * m ≤ c ^ 3) (c2 : c ^ 3 ≤ (1 + 1 / 2 ^ 53) * m) :
+    |R - c| ≤ (151 / 100) * (1 / 2 ^ 53) * c := by
+  have hRh : 0 ≤ R - h := by nlinarith
+  have hm0 : 0 ≤ m := le_trans (by positivity) h1
+  have up : c ≤ (1 + 1 / 2 ^ 53 / 3) * (R + h) := by
+    have e : (1 + 1 / 2 ^ 53 : ℝ) ≤ (1 + 1 / 2 ^ 53 / 3) ^ 3 := by norm_num
+    have : c ^ 3 ≤ ((1 + 1 / 2 ^ 53 / 3) * (R + h)) ^ 3 := by
+      rw [mul_pow]
+      calc c ^ 3 ≤ (1 + 1 / 2 ^ 53) * m := c2
+        _ ≤ (1 + 1 / 2 ^ 53) * (R + h) ^ 3 := mul_le_mul_of_nonneg_left h2 (by norm_num)
+        _ ≤ (1 + 1 / 2 ^ 53 / 3) ^ 3 * (R + h) ^ 3 := mul_le_mul_of_nonneg_right e (by positivity)
+    exact (pow_le_pow_iff_left₀ hc0 (by positivity) (by norm_num)).1 this
+  have lo : (1 - 1 / 2 ^ 53 / 2) * (R - h) ≤ c := by
+    have e : ((1 - 1 / 2 ^ 53 / 2) ^ 3 : ℝ) ≤ (1 - 1 / 2 ^ 53) := by norm_num
+    have : ((1 - 1 / 2 ^ 53 / 2) * (R - h)) ^ 3 ≤ c ^ 3 := by
+      rw [mul_pow]
+      calc (1 - 1 / 2 ^ 53 / 2) ^ 3 * (R - h) ^ 3 ≤ (1 - 1 / 2 ^ 53) * (R - h) ^ 3 :=
+            mul_le_mul_of_nonneg_right e (by positivity)
+        _ ≤ (1 - 1 / 2 ^ 53) * m := mul_le_mul_of_nonneg_left h1 (by norm_num)
+        _ ≤ c ^ 3 := c1
+    have h0 : (0 : ℝ) ≤ 1 - 1 / 2 ^ 53 / 2 := by norm_num
+    exact (pow_le_pow_iff_left₀ (mul_nonneg h0 hRh) hc0 (by norm_num)).1 this
+  have hh' : h ≤ (1 / 2 ^ 53) * R := by
+    have : (0 : ℝ) < 2 ^ 53 := by positivity
+    rw [show (1 / 2 ^ 53 : ℝ) * R = R / 2 ^ 53 by ring, le_div_iff₀ this]; linarith
+  rw [abs_le]
+  constructor <;> nlinarith
+
+
+/-- **the initial approximation `x0 = (cbrt(a.hi), 0)`**: a valid pair within `1.51·2^-53` of the cube root -/
+theorem cbrt_init {a : TwoFloat} {C : ℝ} (hva : a.Valid) (hwa : a.WF) (ha0 : a.hi.toInt ≠ 0)
+    (hCa : C ^ 3 = (a.V : ℝ) * (2 ^ 1074) ^ 2) :
+    (convert.impl_From_f64_for_TwoFloat.from (F64.cbrt a.hi)).Valid ∧
+    (convert.impl_From_f64_for_TwoFloat.from (F64.cbrt a.hi)).WF ∧
+    |((convert.impl_From_f64_for_TwoFloat.from (F64.cbrt a.hi)).V : ℝ) - C|
+      ≤ (151 / 100) * (1 / 2 ^ 53) * |C| := by
+  obtain ⟨s, n, hsn⟩ := is_finite_iff.mp hva.1
+  have hn : 0 < n := by
+    rcases Nat.eq_zero_or_pos n with h | h
+    · exfalso; apply ha0; rw [hsn, h]; exact toInt_zero s
+    · exact h
+  obtain ⟨q', e0, h0, q1, q2, m3, m1, m2⟩ := cbrt_spec s n hn
+  have hnmax : n ≤ maxFin := by
+    have := hwa.1; rw [hsn] at this; exact this.2
+  -- the result is a finite well-formed double
+  have hRlt : q' * 2 ^ (e0 + 1) < 2 ^ 1417 := by
+    have hm : n * 2 ^ 2148 < 2 ^ 4246 := by
+      calc n * 2 ^ 2148 < 2 ^ 2098 * 2 ^ 2148 :=
+            Nat.mul_lt_mul_of_pos_right (lt_of_le_of_lt hnmax maxFin_lt) (Nat.two_pow_pos _)
+        _ = 2 ^ 4246 := by rw [← Nat.pow_add]
+    have h1 : (q' * 2 ^ e0) ^ 3 ≤ n * 2 ^ 2148 :=
+      le_trans (Nat.pow_le_pow_left (Nat.mul_le_mul_right _ (by omega)) 3) m1
+    have h2 : q' * 2 ^ e0 < 2 ^ 1416 := by
+      by_contra hc
+      have := Nat.pow_le_pow_left (not_lt.1 hc) 3
+      have e : ((2 : Nat) ^ 1416) ^ 3 = 2 ^ 4248 := by rw [← pow_mul]
+      have : (2 : Nat) ^ 4246 < 2 ^ 4248 := Nat.pow_lt_pow_right (by norm_num) (by norm_num)
+      omega
+    calc q' * 2 ^ (e0 + 1) = 2 * (q' * 2 ^ e0) := by rw [pow_succ]; ring
+      _ < 2 * 2 ^ 1416 := by omega
+      _ = 2 ^ 1417 := by rw [← pow_succ']
+  have hRw : (fin s (q' * 2 ^ (e0 + 1))).WF :=
+    ⟨rep_of_mul_pow _ q2, le_trans (le_of_lt hRlt)
+      (le_trans (Nat.pow_le_pow_right (by norm_num) (by norm_num)) two_pow_2097_le_maxFin)⟩
+  rw [hsn, h0, from_eq]
+  obtain ⟨pV, pValid, pWF⟩ := pair_zero_spec (x := fin s (q' * 2 ^ (e0 + 1))) rfl hRw
+  refine ⟨pValid, pWF, ?_⟩
+  rw [pV]
+  -- real statement
+  have hV := hi_real hva
+  rw [hsn] at hV
+  have habs : |(((fin s n).toInt : Int) : ℝ)| = (n : ℝ) := by
+    rw [← Int.cast_abs, abs_toInt_fin]; simp
+  rw [habs] at hV
+  have hC3 : |C| ^ 3 = |(a.V : ℝ)| * (2 ^ 1074) ^ 2 := by
+    rw [← abs_pow, hCa, abs_mul, abs_of_pos (by positivity : (0 : ℝ) < (2 ^ 1074) ^ 2)]
+  have e2148 : ((2 : ℝ) ^ 1074) ^ 2 = 2 ^ 2148 := by rw [← pow_mul]
+  have r1 : (((2 * q' - 1 : ℕ) : ℝ) * 2 ^ e0) ^ 3 ≤ (n : ℝ) * 2 ^ 2148 := by exact_mod_cast m1
+  have r2 : (n : ℝ) * 2 ^ 2148 ≤ (((2 * q' + 1 : ℕ) : ℝ) * 2 ^ e0) ^ 3 := by exact_mod_cast m2
+  have e1 : ((2 * q' - 1 : ℕ) : ℝ) = 2 * (q' : ℝ) - 1 := by
+    have : 1 ≤ 2 * q' := by omega
+    push_cast [Nat.cast_sub this]; ring
+  have e3 : ((2 * q' + 1 : ℕ) : ℝ) = 2 * (q' : ℝ) + 1 := by push_cast; ring
+  rw [e1] at r1; rw [e3] at r2
+  have hq52 : (2 : ℝ) ^ 52 ≤ (q' : ℝ) := by exact_mod_cast q1
+  have hF : (0 : ℝ) < 2 ^ e0 := by positivity
+  have hRe : ((q' * 2 ^ (e0 + 1) : ℕ) : ℝ) = (q' : ℝ) * (2 ^ e0 * 2) := by push_cast; rw [pow_succ]
+  have key := init_real (R := (q' : ℝ) * (2 ^ e0 * 2)) (h := 2 ^ e0) (m := (n : ℝ) * 2 ^ 2148) (c := |C|)
+    (by positivity) hF (by nlinarith) (abs_nonneg C)
+    (by rw [show (q' : ℝ) * (2 ^ e0 * 2) - 2 ^ e0 = (2 * (q' : ℝ) - 1) * 2 ^ e0 by ring]; exact r1)
+    (by rw [show (q' : ℝ) * (2 ^ e0 * 2) + 2 ^ e0 = (2 * (q' : ℝ) + 1) * 2 ^ e0 by ring]; exact r2)
+    (by rw [hC3, e2148]
+        have := mul_le_mul_of_nonneg_right hV.1 (show (0 : ℝ) ≤ 2 ^ 2148 by positivity)
+        linarith)
+    (by rw [hC3, e2148]
+        have := mul_le_mul_of_nonneg_right hV.2 (show (0 : ℝ) ≤ 2 ^ 2148 by positivity)
+        linarith)
+  -- signs
+  cases s with
+  | false =>
+    have hpos : 0 < a.hi.toInt := by rw [hsn]; simp [toInt]; exact hn
+    have hVpos : (0 : ℝ) < (a.V : ℝ) := by exact_mod_cast hva.V_pos_of_hi_pos hpos
+    have hCpos : 0 < C := by
+      by_contra hc
+      have : C ^ 3 ≤ 0 := by
+        have h3 : C ^ 3 = C * C ^ 2 := by ring
+        rw [h3]; exact mul_nonpos_of_nonpos_of_nonneg (not_lt.1 hc) (sq_nonneg C)
+      rw [hCa] at this
+      have : (0 : ℝ) < (a.V : ℝ) * (2 ^ 1074) ^ 2 := by positivity
+      linarith
+    rw [abs_of_pos hCpos] at key ⊢
+    have e : (((fin false (q' * 2 ^ (e0 + 1))).toInt : Int) : ℝ) = (q' : ℝ) * (2 ^ e0 * 2) := by
+      rw [← hRe]; simp [toInt]
+    rw [e]; exact key
+  | true =>
+    have hneg : a.hi.toInt < 0 := by rw [hsn]; simp [toInt]; exact hn
+    have hVneg : (a.V : ℝ) < 0 := by exact_mod_cast hva.V_neg_of_hi_neg hneg
+    have hCneg : C < 0 := by
+      by_contra hc
+      have : 0 ≤ C ^ 3 := pow_nonneg (not_lt.1 hc) 3
+      rw [hCa] at this
+      have : (a.V : ℝ) * (2 ^ 1074) ^ 2 < 0 := mul_neg_of_neg_of_pos hVneg (by positivity)
+      linarith
+    rw [abs_of_neg hCneg] at key ⊢
+    have e : (((fin true (q' * 2 ^ (e0 + 1))).toInt : Int) : ℝ) = -((q' : ℝ) * (2 ^ e0 * 2)) := by
+      rw [← hRe]; simp [toInt]
+    rw [e]
+    have e' : -((q' : ℝ) * (2 ^ e0 * 2)) - C = -((q' : ℝ) * (2 ^ e0 * 2) - -C) := by ring
+    rw [e', abs_neg]; exact key
+
+
+/-- numerator and denominator of the Newton correction -/
+def cbrtNum (x a : TwoFloat) : TwoFloat := subTT (mulTT (mulTT x x) x) a
+def cbrtDen (x : TwoFloat) : TwoFloat := mulFT (f64lit 0x4008000000000000) (mulTT x x)
+
+/-- `TwoFloat::cbrt` on a non-zero high word: two Newton steps from the correctly rounded `f64` cube root -/
+theorem cbrt_eq (x : TwoFloat) (hf : x.hi.is_finite = true) (h0 : x.hi.toInt ≠ 0) :
+    TwoFloat.cbrt x
+      = cbrtStep (cbrtStep (convert.impl_From_f64_for_TwoFloat.from (F64.cbrt x.hi)) x) x := by
+  have heq : (x.hi ==. f64lit 0) = false := by
+    rw [req_eq, F64.f64lit_zero, Bool.eq_false_iff]
+    intro h
+    exact h0 ((eq_zero_iff hf).1 h)
+  unfold TwoFloat.cbrt
+  rw [if_neg (by rw [heq]; simp)]
+  rfl
+
+/-- every real has a real cube root -/
+theorem exists_cbrt (y : ℝ) : ∃ C : ℝ, C ^ 3 = y := by
+  rcases le_or_gt 0 y with h | h
+  · exact ⟨y ^ (((3 : ℕ) : ℝ)⁻¹), Real.rpow_inv_natCast_pow h (by norm_num)⟩
+  · refine ⟨-((-y) ^ (((3 : ℕ) : ℝ)⁻¹)), ?_⟩
+    have := Real.rpow_inv_natCast_pow (x := -y) (n := 3) (by linarith) (by norm_num)
+    rw [Odd.neg_pow (by decide), this, _root_.neg_neg]
+
+/-- **`TwoFloat::cbrt`, value level, PARTIAL** (side conditions `NumOK` on the two Newton numerators): for a valid,
+well-formed `x` with `|x.hi| ∈ [2^-900, 2^900]` the result is a valid well-formed pair within `7·2^-106` (relative) of
+the real cube root; in scaled units: `C³ = x.V·2^2148`, `|R − C| ≤ 7·2^-106·|C|`. -/
+theorem cbrt_val_of_numOK {x : TwoFloat} (hv : x.Valid) (hw : x.WF)
+    (hlo : 2 ^ 174 ≤ |x.hi.toInt|) (hhi : |x.hi.toInt| ≤ 2 ^ 1974)
+    (H1 : NumOK (cbrtNum (convert.impl_From_f64_for_TwoFloat.from (F64.cbrt x.hi)) x)
+      (cbrtDen (convert.impl_From_f64_for_TwoFloat.from (F64.cbrt x.hi))))
+    (H2 : NumOK (cbrtNum (cbrtStep (convert.impl_From_f64_for_TwoFloat.from (F64.cbrt x.hi)) x) x)
+      (cbrtDen (cbrtStep (convert.impl_From_f64_for_TwoFloat.from (F64.cbrt x.hi)) x))) :
+    (TwoFloat.cbrt x).Valid ∧ (TwoFloat.cbrt x).WF ∧
+    ∃ C : ℝ, C ^ 3 = (x.V : ℝ) * (2 ^ 1074) ^ 2 ∧
+      2 ^ 106 * |((TwoFloat.cbrt x).V : ℝ) - C| ≤ 7 * |C| := by
+  have h0 : x.hi.toInt ≠ 0 := by
+    intro h; rw [h, abs_zero] at hlo
+    have : (0 : Int) < 2 ^ 174 := by positivity
+    omega
+  obtain ⟨C, hC⟩ := exists_cbrt ((x.V : ℝ) * (2 ^ 1074) ^ 2)
+  obtain ⟨v0, w0, e0⟩ := cbrt_init hv hw h0 hC
+  have hE0 : (151 / 100 : ℝ) * (1 / 2 ^ 53) ≤ 1 / 2 ^ 50 := by norm_num
+  obtain ⟨v1, w1, e1⟩ := cbrt_step v0 w0 hv hw hlo hhi hC (by positivity) hE0 e0 H1
+  have hE1 : ((1001 / 1000 : ℝ) * ((151 / 100) * (1 / 2 ^ 53)) ^ 2 + (13 / 2) * (1 / 2 ^ 106)) ≤ 9 * (1 / 2 ^ 106) := by
+    norm_num
+  have e1' : |((cbrtStep (convert.impl_From_f64_for_TwoFloat.from (F64.cbrt x.hi)) x).V : ℝ) - C|
+      ≤ (9 * (1 / 2 ^ 106)) * |C| := le_trans e1 (mul_le_mul_of_nonneg_right hE1 (abs_nonneg C))
+  obtain ⟨v2, w2, e2⟩ := cbrt_step v1 w1 hv hw hlo hhi hC (by positivity) (by norm_num) e1' H2
+  rw [cbrt_eq x hv.1 h0]
+  refine ⟨v2, w2, C, hC, ?_⟩
+  have hE2 : ((1001 / 1000 : ℝ) * (9 * (1 / 2 ^ 106)) ^ 2 + (13 / 2) * (1 / 2 ^ 106)) ≤ 7 / 2 ^ 106 := by
+    norm_num
+  have := le_trans e2 (mul_le_mul_of_nonneg_right hE2 (abs_nonneg C))
+  have hp : (0 : ℝ) < 2 ^ 106 := by positivity
+  rw [show (7 : ℝ) / 2 ^ 106 * |C| = 7 * |C| / 2 ^ 106 by ring, le_div_iff₀ hp] at this
+  linarith
 
 end CbrtBound
